@@ -24,8 +24,9 @@ import traceback
 
 VERIF = os.path.dirname(os.path.dirname(os.path.abspath(__file__)))
 REPO = os.environ.get("GBMC_REPO", "/repo")
-EVIDENCE_DIR = os.path.join(VERIF, "evidence")
-REPLAY_DIR = os.path.join(VERIF, "replays")
+_OUT = os.environ.get("GBMC_OUT", VERIF)  # mutation self-tests redirect evidence / replays away from /verif
+EVIDENCE_DIR = os.path.join(_OUT, "evidence")
+REPLAY_DIR = os.path.join(_OUT, "replays")
 FINDINGS_FILE = os.path.join(VERIF, "known_findings.json")
 MEM_LIMIT = 4 * 1024**3
 NPROC = int(os.environ.get("GBMC_NPROC", str(min(16, os.cpu_count() or 4))))
